@@ -274,6 +274,9 @@ func contentBytes(kind, base string) []byte {
 		return append(append([]byte{}, bom...), base...)
 	case "bom2":
 		return append(append(append([]byte{}, bom...), bom...), base...)
+	case "bombin":
+		// a BOM in front of bytes that are not valid UTF-8 (a binary blob that happens to start with EF BB BF)
+		return append(append([]byte{}, bom...), 0xFF, 0xFE, 0x00, 0x01, 'b', 'i', 'n', 0xC3, 0x28, 0x00)
 	case "crlf":
 		return []byte(strings.ReplaceAll(base, "\n", "\r\n"))
 	}
@@ -390,7 +393,7 @@ func deviations() []deviation {
 
 	// contents x where
 	for _, tgt := range []string{"file", "tpl", "values"} {
-		for _, kind := range []string{"empty", "binary", "bom", "bom2", "crlf"} {
+		for _, kind := range []string{"empty", "binary", "bom", "bom2", "bombin", "crlf"} {
 			tgt, kind := tgt, kind
 			add("content-"+kind+"@"+tgt, func(b *build) {
 				switch tgt {
